@@ -7,7 +7,7 @@
   on code points: the tag is the list of its runes (`for i, r := range jsTag`), the emitted key is a list of source code
   points, the property name it denotes is a list of UTF-16 code units.
 
-  `unicode.IsLetter`, `unicode.IsNumber` and `unicode.IsPrint` are Unicode tables: they are parameters of the model.
+  `unicode.IsLetter`, `unicode.IsDigit` and `unicode.IsPrint` are Unicode tables: they are parameters of the model.
 -/
 import GV.Model.StrLit
 import GV.Spec.JsTable
@@ -18,7 +18,7 @@ open GV.Spec.JsTable
 /-- the classification tables the Go code consults -/
 structure Tables where
   isLetter : Nat → Bool
-  isNumber : Nat → Bool
+  isDigit : Nat → Bool
   isPrint : Nat → Bool
 
 inductive Key where
@@ -55,10 +55,10 @@ def escRune (T : Tables) (r : Nat) : List Nat :=
 
 def jsEscape (T : Tables) (runes : List Nat) : List Nat := (runes.map (escRune T)).flatten
 
-/-- utils.go:988-990 `ok := unicode.IsLetter(r) || (i != 0 && unicode.IsNumber(r)) || r == '$' || r == '_'` for every rune -/
+/-- utils.go:988-990 `ok := unicode.IsLetter(r) || (i != 0 && unicode.IsDigit(r)) || r == '$' || r == '_'` for every rune -/
 def identFrom (T : Tables) : Bool → List Nat → Bool
   | _, [] => true
-  | first, r :: rest => (T.isLetter r || (!first && T.isNumber r) || r == 36 || r == 95) && identFrom T false rest
+  | first, r :: rest => (T.isLetter r || (!first && T.isDigit r) || r == 36 || r == 95) && identFrom T false rest
 
 /-- utils.go:987-998 `formatJSStructTagVal` -/
 def tagKey (T : Tables) (runes : List Nat) : Key :=
@@ -116,7 +116,10 @@ def unescN : Nat → List Nat → List Nat → Option (List Nat)
 
 def unesc (l : List Nat) (acc : List Nat) : Option (List Nat) := unescN l.length l acc
 
-/-- the property name an accessor denotes -/
+/-- the property name an accessor denotes. Dot notation: the IdentifierName's characters — this presupposes that every rune the
+    identifier test lets through is an ECMAScript IdentifierStart/IdentifierPart (letters, `$`, `_`, decimal digits Nd; the
+    former `unicode.IsNumber` test also let category No through, e.g. `x²`, which is a SyntaxError — repaired by
+    fixes/C11-js-tag-ident-digit.patch). -/
 def keyName : Key → Option (List Nat)
   | .dot name => some ((name.map utf16Of).flatten)       -- IdentifierName without escapes: its characters
   | .bracket (34 :: rest) => unesc rest []
